@@ -511,16 +511,16 @@ pub mod ibc {
     /// IBC light clients.
     pub mod lightclients {
         pub mod localhost {
-            pub mod v1 {
+            pub mod v2 {
                 include!("proto/ibc.lightclients.localhost.v2.rs");
             }
         }
         pub mod solomachine {
-            pub mod v1 {
+            pub mod v2 {
                 include!("proto/ibc.lightclients.solomachine.v2.rs");
             }
 
-            pub mod v2 {
+            pub mod v3 {
                 include!("proto/ibc.lightclients.solomachine.v3.rs");
             }
         }
